@@ -289,11 +289,16 @@ func runIngest(s *srv.S, rng *rand.Rand, thorough bool) map[string]any {
 }
 
 // forceReportOverlap replays the NoConflict_report counterexample of spec/IngestMgrImpl.tla (process sess inside the
-// append to `report`, a Get client inside its read) with the scheduler gates of proposed_fixes/C07-hooks.diff: the
-// session goroutine is held right before the append, a GET handler right before the read, then both gates are
-// released by this goroutine - the two accesses are unordered for the race detector whatever the server's internal
-// synchronisation did before. Returns the number of overlaps forced: 0 when the repository under test has no such
-// gates (the armed points are never reached; the free-running phase below is then the only instrument).
+// append to `report`, a Get client inside its read) with the scheduler gates of the repository (build tag verif):
+// the session goroutine is held at "ingest:sess_report" right before the append, a GET handler at
+// "ingest:get_report" right before the read, then both gates are released by this goroutine. The harness adds NO
+// happens-before edge between the two released goroutines beyond the releases themselves: both only acquire from
+// this goroutine (close of their gate channel), this goroutine acquires nothing from either of them between the two
+// releases, and the GET gate is released FIRST because the GET handler never touches the gate table again, whereas
+// the session goroutine calls verifGate (table mutex) again for its next init segment - released second, nothing of
+// what it does afterwards can reach the reader through that mutex. So the two accesses are unordered for the race
+// detector unless the SERVER orders them (the per-session mutex). Returns the number of overlaps forced; the check
+// treats 0 as a machinery problem (gates not reached).
 func forceReportOverlap(s *srv.S, recvURL string, bound time.Duration) int {
 	const gSess, gGet = "ingest:sess_report", "ingest:get_report"
 	reached := make(chan string, 16)
@@ -333,8 +338,8 @@ func forceReportOverlap(s *srv.S, recvURL string, bound time.Duration) int {
 			}()
 			okGet = waitFor(gGet, 1500*time.Millisecond)
 		}
-		app.VerifReleaseGate(gSess)
 		app.VerifReleaseGate(gGet)
+		app.VerifReleaseGate(gSess)
 		if okSess {
 			<-done
 		}
@@ -346,7 +351,7 @@ func forceReportOverlap(s *srv.S, recvURL string, bound time.Duration) int {
 			apiDo(s, "DELETE", "/api/cmaf-ingests/"+cr.ID, nil, bound)
 		}
 		if !okSess {
-			break // no gates in this repository
+			break // gate not reached (session not created / no gate in this build)
 		}
 	}
 	return n
